@@ -64,7 +64,11 @@ CHECKS["C18"] = ("other", "symbolic interval walk of the length dispatch + calle
                  "The budget table extracted from the comparison tree on received.len() equals {0-3: none, 4-7: 1, 8-12: 2, 13-17: 3, 18-24: 4, 25+: 5}; candidates are accepted.iter() unfiltered and in order, the metric is strsim::damerau_levenshtein(received, candidate), kept iff distance <= that budget, chosen by min_by(d1.cmp(d2)) (first minimum); None gives the empty string and Some names exactly that candidate.",
                  TB + "; strsim's metric and std's min_by tie rule are trusted; len is bytes", "§5 C18")
 
-NOT_YET = {p: 'check not yet built in this revision of /verif (construction order in DESIGN.md §8); will be claimed when its rule set is armed' for p in ['C13', 'C14', 'C20']}
+CHECKS["C13"] = ("other", "variant tables of the four sibling bridge functions extracted from MIR and cross-checked (sibling agreement), incl. the ordered number ladder",
+                 "kind(j) names the same variant as into_value(j) for all six JSON variants, with the number ladder u64 -> Integer, i64 -> NegativativeInteger, f64 -> Float in that order and each payload being the value just obtained; Value::kind is the identity table; both Value -> serde_json::Value maps invert into_value on variant names and move payloads unchanged (integers via Number::from, floats via Number::from_f64); arrays/objects are rebuilt element by element in order; the Deserr impl can only fail by itself on from_f64 == None.".replace("Negativative", "Negative"),
+                 TB + "; serde_json::Number semantics (from / as_* are lossless inverses, parsed documents hold finite floats) - document equality follows only under these; -0.0 and precision not decided", "§5 C13")
+
+NOT_YET = {p: 'check not yet built in this revision of /verif (construction order in DESIGN.md §8); will be claimed when its rule set is armed' for p in ['C14', 'C20']}
 
 
 def main():
